@@ -34,3 +34,63 @@ def run_chain(case):
     vals = [payload(p) for p in case["payloads"]]
     it = SigmaDetectionItem.from_mapping(key, vals if len(vals) != 1 else vals[0])
     return {"vals": [enc_val(v) for v in it.value]}
+
+
+# ---- purity: the modifiers must not change the values they are applied to -------------------------
+def _guard(f):
+    from sigma.exceptions import SigmaError
+    try:
+        return f()
+    except Exception as e:  # noqa
+        return {"exc": type(e).__name__, "sigma": isinstance(e, SigmaError), "msg": str(e)[:200]}
+
+
+def run_pure(case):
+    """Several observations of the same chain; each view is [mods, payloads, result] and is judged
+    like a fresh application of `mods` to `payloads`."""
+    from sigma.modifiers import modifier_mapping
+    from sigma.types import sigma_type
+    mods, pls = case["mods"], case["payloads"]
+    key = "f" + "".join("|" + m for m in mods)
+    vals = [payload(p) for p in pls]
+    views = []
+
+    # 1. through from_mapping; (a) original_value afterwards must still be the payloads
+    box = {}
+    def first():
+        box["it"] = SigmaDetectionItem.from_mapping(key, vals if len(vals) != 1 else vals[0])
+        return {"vals": [enc_val(v) for v in box["it"].value]}
+    views.append(["first", mods, pls, _guard(first)])
+    it = box.get("it")
+    if it is not None:
+        views.append(["original_value", [], pls, _guard(lambda: {"vals": [enc_val(v) for v in it.original_value]})])
+        # (c) to_plain() and from_mapping again (not for payloads whose plain form is known not to re-parse, C05 D10)
+        if not case.get("skip_roundtrip"):
+            def again():
+                plain = it.to_plain()
+                (k, v), = plain.items()
+                it2 = SigmaDetectionItem.from_mapping(k, v)
+                return {"vals": [enc_val(x) for x in it2.value]}
+            views.append(["to_plain_reload", mods, pls, _guard(again)])
+
+    # (b) the same source objects used for two detection items, and twice in one value list
+    classes = [modifier_mapping[m] for m in mods]
+    src = [sigma_type(v) for v in vals]
+    views.append(["shared_1", mods, pls, _guard(lambda: {"vals": [enc_val(v) for v in SigmaDetectionItem("f", classes, list(src)).value]})])
+    views.append(["shared_2", mods, pls, _guard(lambda: {"vals": [enc_val(v) for v in SigmaDetectionItem("g", classes, list(src)).value]})])
+    views.append(["sources_after", [], pls, _guard(lambda: {"vals": [enc_val(v) for v in src]})])
+    src2 = [sigma_type(v) for v in vals]
+    dbl = [x for x in src2 for _ in (0, 1)]
+    views.append(["same_object_twice_in_list", mods, [p for p in pls for _ in (0, 1)],
+                  _guard(lambda: {"vals": [enc_val(v) for v in SigmaDetectionItem("f", classes, dbl).value]})])
+    # the same modifier object applied twice to the same value object
+    if classes:
+        src3 = [sigma_type(v) for v in vals]
+        holder = SigmaDetectionItem("f", [], list(src3))
+        inst = classes[0](holder, [])
+        def twice():
+            for x in src3:
+                inst.apply(x)
+            return {"vals": [enc_val(r) for x in src3 for r in inst.apply(x)]}
+        views.append(["same_modifier_object_twice", mods[:1], pls, _guard(twice)])
+    return {"views": views}
